@@ -15,7 +15,7 @@ func b01(b bool) string {
 	}
 	return "0"
 }
-func itoa(i int) string     { return strconv.Itoa(i) }
-func i64(i int64) string    { return strconv.FormatInt(i, 10) }
-func u64(i uint64) string   { return strconv.FormatUint(i, 10) }
+func itoa(i int) string         { return strconv.Itoa(i) }
+func i64(i int64) string        { return strconv.FormatInt(i, 10) }
+func u64(i uint64) string       { return strconv.FormatUint(i, 10) }
 func sx(parts ...string) string { return "(" + strings.Join(parts, " ") + ")" }
